@@ -60,7 +60,11 @@ Restricted == {scopes[j].dom : j \in {i \in 1..Len(scopes) : scopes[i].dom # ""}
 NRestricted == Cardinality({i \in 1..Len(scopes) : scopes[i].dom # ""})
 (* eval_node: free_var_domains.iter().all(|(v, d)| d.is_none() || renaming.contains_key(v))  --  with at most  *)
 (* one variable in a marked key: no restricted scope is open, or exactly one and it is the key's own variable *)
-SaveRule(k) == NRestricted = 0 \/ (NRestricted = 1 /\ KeyDom(k) \in Restricted)
+SaveRule(k) ==
+  \A i \in 1..Len(scopes) :
+    scopes[i].dom # "" => (scopes[i].dom = KeyDom(k) /\ \A j \in 1..Len(scopes) : scopes[j].dom # "" => j = i)
+(* (the same rule with a count: used as a cross-check by MC_Cache) *)
+SaveRuleCounted(k) == NRestricted = 0 \/ (NRestricted = 1 /\ KeyDom(k) \in Restricted)
 
 Open(v, d) ==
   /\ \A j \in 1..Len(scopes) : scopes[j].var # v      \* variables are named by nesting depth: no re-binding
